@@ -481,7 +481,11 @@ func GenHaystack(r *RNG, re *syntax.Regexp, asciiOnly bool) []byte {
 		nm := 1 + r.Intn(3)
 		for i := 0; i < nm; i++ {
 			if r.Chance(60) {
-				h = append(h, ctxBytes[r.Intn(len(ctxBytes))]...)
+				// one context piece, sometimes two or three: what stands directly before a match and what stands before THAT differ
+				// (a start state chosen for one of them is wrong for the other: " aport" for \bport)
+				for k := 1 + r.Intn(10)/7 + r.Intn(10)/9; k > 0; k-- {
+					h = append(h, ctxBytes[r.Intn(len(ctxBytes))]...)
+				}
 			}
 			b := 40
 			h = sampleMatch(r, re, h, &b)
